@@ -1,6 +1,6 @@
 module github.com/cloudwego/eino/verifharness
 
-go 1.18
+go 1.21
 
 require github.com/cloudwego/eino v0.0.0
 
